@@ -96,6 +96,27 @@ pub fn variants(p: &Pos, rng: &mut gen::R, hs: &Hashers, rep: &mut Report) {
             must_equal(hs, (p, &st), (p, &rt), "fen_round_trip", rep);
         }
     }
+    // "for all hasher seeds" also means: a hasher is a function of its seed alone. One hasher variable is seeded,
+    // used on this position, re-seeded in place and used again: the second value must be what a long-lived hasher
+    // of that seed gives (nothing remembered from the first seed, or tied to the object's address, may leak in)
+    if hs.0.len() >= 2 && rng.gen_bool(0.05) {
+        use rand::SeedableRng;
+        let (sa, sb) = (hs.0[0].0, hs.0[1].0);
+        let mut h = ZobristHasher::with(&mut rand_chacha::ChaCha8Rng::seed_from_u64(sa));
+        let first = hash(&h, &st);
+        h = ZobristHasher::with(&mut rand_chacha::ChaCha8Rng::seed_from_u64(sb));
+        let second = hash(&h, &st);
+        // the same hasher, another placement in between, the same position again
+        let _ = hash(&h, &to_state(&Pos::start()));
+        let third = hash(&h, &st);
+        rep.eval(1);
+        rep.count("reseeded_in_place_checks", 1);
+        if let (Ok(_), Ok(b), Ok(c), Ok(b0)) = (first, second, third, hash(&hs.0[1].1, &st)) {
+            if b != c {
+                rep.violation("hash-unequal", &format!("hash-unequal|reseeded|{}", p.fen()), &format!("one hasher (seeded {}, then re-seeded {} in place) hashes {} to {:#x} and, after hashing another position, to {:#x}; a long-lived hasher of seed {} gives {:#x}", sa, sb, p.fen(), b, c, sb, b0), json!({"fen": p.fen(), "fen2": p.fen(), "expect": "equal"}));
+            }
+        }
+    }
     // a clone taken after attack maps were queried
     let _ = st.board().colored_attacks(color(true));
     let cl = st.clone();
